@@ -8,12 +8,49 @@ ROOT = os.path.dirname(os.path.dirname(os.path.abspath(__file__)))
 BASELINE_OFF = "cd /repo && GOFLAGS=-mod=mod GOPROXY=off go test -vet=off -count=1 -timeout 25m ./..."
 
 # id -> (category, technique, text, note, design_ref)
+E1 = "bounded exhaustive enumeration (explicit small-scope model checking of the real implementation against a reference oracle)"
 CHECKS = {
+ "C01": ("model_checking", E1 + " over build pairs from a block alphabet x every registered compression setting; independent Lstat tree oracle and independent patch decoder",
+  "Every ordered pair of builds of the stated families (block-level F1, shape-level F2 x all 20 compression settings, limit family F3 around 4MiB/8MiB runs) goes through the real WritePatch -> patcher -> fresh bowl; the output tree is compared entry by entry with the new build. Exhaustive within the families.",
+  "Byte values outside the seeded block alphabet are not enumerated; file modes are not compared.", "DESIGN.md#c01"),
+ "C02": ("model_checking", E1 + " over tree pairs containing every rename/swap/chain/duplicate/kind change on 2-3 names; pre-commit and post-commit snapshots",
+  "All 4096 pairs of P1 (rename relations), all 4096 pairs of P2 (kind changes), block-level P3 with plain and optimized patches, applied in place through the real overlay bowl; old build must be untouched before Commit, directory must equal the new build after. Commit's map iteration orders are covered by repetition only (stated in evidence).",
+  "Map iteration order of the commit phase is not enumerated (Go runtime order, repeated runs). Known findings: kind changes whose commit phases are ordered wrongly (RC1, RC3, RC4).", "DESIGN.md#c02"),
+ "C04": ("model_checking", E1 + " over size tuples x producers x compression; choice-tape DFS (deviation bound 2) over the source pool's read slicing",
+  "All 1-3 file size tuples around block multiples x {stand-alone signing, diff-time signing vs empty / identical old build}; every signature stream read back and compared hash for hash with ComputeSignature and with an independent weak+MD5 reference; read slicings of the shared source reader enumerated by deviation-bounded DFS; pristine build validates clean.",
+  "Short reads are 1 or 16383 bytes at up to 2 Read calls per execution.", "DESIGN.md#c04"),
+ "C05": ("fault_enumeration", "exhaustive enumeration of damage sequences (length 1, 2; 3 in thorough) from a boundary-offset damage catalogue, oracle by independent byte comparison",
+  "Every single damage and every pair (thorough: triple) of damages on distinct entries of 4 builds; wounds file decoded independently; every differing offset must lie in a FILE wound, shorter/longer files and wrong kinds must be wounded, wounds well-formed; fail-fast must return an error.",
+  "Offsets/lengths from the boundary set around every block boundary; two-flip weak-hash collisions included.", "DESIGN.md#c05"),
+ "C06": ("model_checking", "exhaustive enumeration of damage sequences (incl. kind swaps hiding subtrees) healed by the real validator+archive healer; schedule dimension of validator/healer covered by repetition here (E2 scheduler part planned)",
+  "Builds x all damage sequences of length 1-2 (+ structural triples): Validate with an archive healer must return nil, every signed entry must be present with signed content, fail-fast validation must pass afterwards, a valid directory must not be touched (inode/mtime).",
+  "Goroutine interleavings of validator and healer are not yet enumerated for this property (each case repeated 5 times, schedule-dependent failures tagged). Known finding: directory replaced by a symlink to a twin directory.", "DESIGN.md#c06"),
+ "C08": ("model_checking", E1 + " over renames, duplications and k<=2 localized edits at boundary offsets/lengths; fresh bytes counted from the independently decoded op stream",
+  "Identical builds, every rename/duplication, every k=1 and k=2 edit (overwrite/insert/delete x boundary offsets x boundary lengths), full shift sweep 1..B-1 in thorough: copied files contribute no DATA bytes, counters add up, fresh <= introduced + (2k+2) blocks.",
+  "High-entropy content from seeded pseudo-random blocks.", "DESIGN.md#c08"),
+ "C09": ("fault_enumeration", "exhaustive enumeration of damages to the old build x patch shapes (block ranges, whole-file copies, bsdiff series) applied through the real safekeeper pool",
+  "10+ build pairs x every single damage (flip/truncate/extend/delete at boundary offsets) and pairs across two files / within one file: outcome must be an error from Resume/Commit or exactly the new build; the undamaged build must never be rejected.",
+  "Kind damages of old files are not enumerated (not in the property's quantifier).", "DESIGN.md#c09"),
+ "C10": ("fault_enumeration", "exhaustive enumeration of byte-level truncations and field-level message mutations (singles, pairs) of valid streams, fed to patcher/optimizer/signature reader/overlay applier; oracle: returns, no panic, no hang",
+  "Every prefix of every seed stream and every single field mutation (indices/spans negative, zero, huge; unknown op types; swapped series kinds; missing/duplicated/moved end markers; bsdiff controls out of range; hash counts) in none/gzip/brotli framing, thorough adds pairs: each target must return an error or complete.",
+  "Containers and declared message lengths stay well-formed as the property stipulates; hang = 60 s watchdog (normal cases take < 1 ms).", "DESIGN.md#c10"),
  "C11": ("model_checking",
-  "bounded exhaustive enumeration of inputs against a reference applier (explicit small-scope model checking of the real ComputeDiff), plus constant-scaled overlay builds",
+  E1 + " of ComputeDiff against a reference applier, plus constant-scaled overlay builds (MaxDataOp 4/5/8)",
   "Every (block size 1..4, 1-3 old files, new content, preferred index) over 2-3 symbol alphabets up to the stated lengths is run through the real CreateSignature/ComputeDiff and the ops are replayed by an independent applier and by ApplySingle; MaxDataOp scaled to 4/5/8 by a build overlay so that every wrap/flush phase is enumerated; real-scale family around MaxDataOp multiples. Exhaustive within those bounds.",
   "Bounds: alphabets {0,1},{0,1,2}; lengths as in DESIGN C11. Scaled builds change only the MaxDataOp constant. Larger block sizes only via the enumerated real-scale family.",
   "DESIGN.md#c11"),
+ "C16": ("model_checking", "stateless model checking of the real Validate under a controlled cooperative scheduler (source-instrumented build): preemption-bounded DFS over goroutine interleavings, select choices and the cancellation instant, with happens-before state caching",
+  "For each scenario (build x damage x consumer x wound-channel capacity {1,2,1024} x canceller) every interleaving up to the stated preemption bound (unbounded for the 1-file build in thorough) is executed on the real code; every execution must end with Validate returned (deadlock = all goroutines parked) and a nil fail-fast verdict only on an undamaged directory. Violations carry the exact schedule and are replayed before being reported.",
+  "Code between visible operations is atomic (data races are C15's race pass); custom consumers cannot be injected through Validate; capacity scaling by overlay.", "DESIGN.md#c16"),
+ "C17": ("model_checking", E1 + " over builds x ALL subsets of file indices x plain/optimized patches x compression, with a recording bowl and recording pool",
+  "720 orderings of 6 file kinds x all 64 whitelists (plain, optimized, all compression settings on a slice) plus the 2051-old-file family (targetIndex 2048/2049/2050): Resume returns nil, touched count = |subset|, bowl and pool see only whitelisted files, each whitelisted file equals the full application's.",
+  "Pool accesses are attributed to the file announced by the patcher's progress label and cross-checked against the series' references.", "DESIGN.md#c17"),
+ "C18": ("model_checking", E1 + " over signed sizes x altered-block subsets / length changes x write slicings x {error, wound, aggregated wound} mode, in-memory inner pool",
+  "Every signed size around block multiples x every subset of altered blocks, truncation and extension x all slicings with <=3 cuts at boundary positions plus uniform slicings: error mode must fail at the completing write/close and leak nothing from the bad block on; wound mode must tile the written range in order with exactly the differing blocks wounded.",
+  "Writer/aggregator/relay interleavings are free-running here (E2 part planned).", "DESIGN.md#c18"),
+ "C19": ("model_checking", E1 + " over trees x {zip, tar} x worker counts, and every interruption point of a resumable extraction (deterministic seams), incl. forced out-of-order completion",
+  "12 catalogue + 180 shape trees x formats x workers {1,2,3,4,8,16,-1}: extracted tree equals the source, counts equal entries, re-extraction idempotent; 1-worker crash after every entry and at every seam event, and forced out-of-order schedules for 2-3 workers, then restart with the same resume file must complete the tree.",
+  "Worker interleavings beyond the forced out-of-order family are free-running (E2 part planned); DryRun not covered.", "DESIGN.md#c19"),
 }
 
 NOT_YET = {}
